@@ -4,7 +4,10 @@
    inc|incpre <cwd> <home> <cart> <inc> <file,file,...>      -> OK <hex> | ERR <name>   (incpre: string-prefix variant)
    filter|filterold <req>                                    -> true|false
    cands <file_path> <lua_path> <req>                        -> hex,hex,...
-   eff <arg|~> <env|~>                                       -> hex          (~ = None) *)
+   eff <arg|~> <env|~>                                       -> hex          (~ = None)
+   walk <cwd> <main> <lua_path> <file,file,..|~> <path=req,req;...|~>   -> <p:hex,o:hex,..|~> OK|ERR <name>
+      (the whole _evaluate_require recursion; files and the keys of the require table are absolute normalised
+       paths, looked up through the model's abspath) *)
 let hexlist s = if s = "~" then [] else List.map bytes_of_hex (String.split_on_char ',' s)
 let opt s = if s = "~" then None else Some (bytes_of_hex s)
 let res r = match r with Ok b -> "OK " ^ hex_of_bytes b | Err e -> "ERR " ^ err_name e
@@ -27,5 +30,19 @@ let handle fields =
   | ["cands"; f; l; r] ->
     String.concat "," (List.map hex_of_bytes (require_candidates_now (bytes_of_hex f) (bytes_of_hex l) (bytes_of_hex r)))
   | ["eff"; a; e] -> hex_of_bytes (effective_lua_path_now (opt a) (opt e))
+  | ["walk"; cwd; main; lp; files; reqs] ->
+    let cwd = bytes_of_hex cwd in
+    let fl = hexlist files in
+    let tbl = if reqs = "~" then [] else
+      List.map (fun kv -> match String.split_on_char '=' kv with
+        | [k; v] -> (bytes_of_hex k, if v = "~" then [] else List.map bytes_of_hex (String.split_on_char ',' v))
+        | _ -> failwith "bad pair") (String.split_on_char ';' reqs) in
+    let norm p = abspath cwd p in
+    let requires_of p = (match List.assoc_opt (norm p) tbl with Some l -> l | None -> []) in
+    let isfile p = List.mem (norm p) fl in
+    let (tr, r) = evaluate_require requires_of isfile (bytes_of_hex lp) (nat_of_int 2000) (bytes_of_hex main) in
+    let ev (o, p) = (if o then "o:" else "p:") ^ hex_of_bytes p in
+    (match tr with [] -> "~" | _ -> String.concat "," (List.map ev tr)) ^ " " ^
+    (match r with Ok _ -> "OK" | Err e -> "ERR " ^ err_name e)
   | _ -> failwith "bad request"
 let () = main_loop handle
